@@ -184,9 +184,9 @@ def run(replay=None):
         cases = builder_cases(c, thorough) + scrambler_cases(c, thorough) + wire_cases(c, thorough)
         c.parts.append({"step": "generate", "what": "seeded tilings / multi-datagram / flight parameterisations, wire configurations", "cases": len(cases), "exhaustive": False})
     c.samples = vlib.sample_cases(cases, c.rng, 3)
-    # a builder that never returns is a crash of its own kind: per-case watchdog (real time; the cases take milliseconds)
+    # a builder that never returns is a crash of its own kind: per-case watchdog (real time; the cases take milliseconds; 30 s)
     groups = c.go_run(".", "TestVerifC09", cases, vlib.pkg_overlay(".", "root"), timeout=2400,
-                      env={"VERIF_CASE_WATCHDOG": "10"}, crash_pkg="github.com/refraction-networking/uquic")
+                      env={"VERIF_CASE_WATCHDOG": "30"}, crash_pkg="github.com/refraction-networking/uquic")
     viols = c.validate_many(c.spec("CryptoTiling_Trace.tla"), [{"label": g, "files": f, "constants": {}, "invariants": INV} for g, f in groups.items()], timeout=2400, max_iter=6)
     if not replay and not getattr(c, "partial", False):
         c.require_events(["Start", "Frame", "End", "Learn"])
